@@ -278,11 +278,26 @@ def build_cooler_real(path, bins, b1, b2, cols, upper=True, group="/", dtypes=No
     return uri
 
 
+class _SymCols(dict):
+    """pixel columns read back on the symbolic side: asking for a column the output does not have is a violation, not a crash"""
+
+    def __missing__(self, k):
+        from engine.symcore import prove
+        prove(False, f"the output has no pixel column '{k}' (a requested value column was dropped)")
+        raise AssertionError("unreachable: prove(False) ends the path")
+
+
+class _RealCols(dict):
+    def __missing__(self, k):
+        from .common import OracleFailure
+        raise OracleFailure(f"the output has no pixel column '{k}' (a requested value column was dropped)")
+
+
 def read_pixels_sym(path, group="/"):
     from engine import symh5
     f = symh5.File(path, "r")
     g = f[group]
-    out = {k: list(g["pixels"][k][:]) for k in g["pixels"].keys()}, dict(g.attrs.items())
+    out = _SymCols({k: list(g["pixels"][k][:]) for k in g["pixels"].keys()}), dict(g.attrs.items())
     f.close()
     return out
 
@@ -291,4 +306,4 @@ def read_pixels_real(path, group="/"):
     import h5py
     with h5py.File(path, "r") as f:
         g = f[group]
-        return {k: g["pixels"][k][:].tolist() for k in g["pixels"].keys()}, dict(g.attrs)
+        return _RealCols({k: g["pixels"][k][:].tolist() for k in g["pixels"].keys()}), dict(g.attrs)
